@@ -6,7 +6,9 @@ Layout (one lemma per helper of the model and per action, so that a small model 
 lemma, not everything; the expressions `… % uint32` are always abstracted into a variable `n`
 through the `…N` normal forms, because unfolding `x + 4294967296` definitionally is fatal):
 * §0 list facts; §1 derived definitions (`places`, …) and normal forms of the record-updating
-  helpers (`failConn_eq`, `finishFrame_eq`, `readerAtM_eq`, `senderAdd_eq`, `startSend_eq'`);
+  helpers (`failConn_eq`, `finishFrame_eq`, `readerAtM_eq`, `senderAdd_eq`, `startSend_eq'`); the
+  batching loop one round at a time (`writerLoopN_succ`, `wlPoison`, `wlSend`) with its induction
+  principle `writerLoop_ind` (every `*_writerLoop` lemma is three cases: exit, poisoned batch, send);
 * §2 `Ext` : monotone fields (`nextId`, `done`, `wroteAs`, fresh ids in `sent`) for every helper
   and `ext_step` for every action;
 * §3 `GO`  : ownership / correlation invariant (C03, C02), reader-free, with a *carry* (the calls
@@ -305,6 +307,73 @@ theorem startSend_eq' (s : St) (w : Who) (it : Item) :
       if mHeld (regSend s w it) then regSendQ s w it
       else regAddN s ((s.inFlight + 1) % uint32) w it := rfl
 
+/-! the batching loop, one round at a time -/
+
+def wlLive (s : St) : List Nat :=
+  (s.offered.take s.queueSize).filter (fun c => !s.ctxDone.contains c)
+
+/-- the batch has been taken off the queue, its dead calls dropped -/
+def wlS1 (s : St) : St :=
+  { s with offered := s.offered.drop s.queueSize,
+           dropped := s.dropped ++ (s.offered.take s.queueSize).filter (fun c => s.ctxDone.contains c) }
+
+/-- the batch contains a call that cannot be marshalled: it is completed locally -/
+def wlPoison (s : St) : St :=
+  { wlS1 s with nextId := s.nextId + 1, unsendable := s.unsendable ++ wlLive s,
+                delivered := s.delivered ++ (wlLive s).map (fun c => Dlv.mk c .fatal none) }
+
+def wlSend (s : St) : St :=
+  startSend { wlS1 s with writerBusy := true } .writer (.multi (wlLive s))
+
+theorem writerLoopN_succ (n : Nat) (s : St) :
+    writerLoopN (n + 1) s =
+      if s.writerExited || s.writerBusy then s
+      else if s.done then { s with writerExited := true }
+      else if s.offered = [] then s
+      else if (wlLive s).any (fun c => s.poison.contains c) then writerLoopN n (wlPoison s)
+      else wlSend s := by
+  simp only [writerLoopN]
+  split
+  · rfl
+  · split
+    · rfl
+    · split
+      · rename_i h; simp [h]
+      · rename_i h
+        have : ¬ s.offered = [] := fun e => h e
+        simp only [this, if_false]
+        rfl
+
+/-- induction over the rounds of the batching loop -/
+theorem writerLoopN_ind {Q : St → Prop} (n : Nat) (s : St) (h0 : Q s)
+    (hexit : ∀ s, Q s → Q { s with writerExited := true })
+    (hpois : ∀ s, Q s → (s.writerExited || s.writerBusy) = false → s.done = false → Q (wlPoison s))
+    (hsend : ∀ s, Q s → (s.writerExited || s.writerBusy) = false → s.done = false → Q (wlSend s)) :
+    Q (writerLoopN n s) := by
+  induction n generalizing s with
+  | zero => exact h0
+  | succ n ih =>
+    rw [writerLoopN_succ]
+    split
+    · exact h0
+    · rename_i hb
+      have hb : (s.writerExited || s.writerBusy) = false := by simpa using hb
+      split
+      · exact hexit s h0
+      · rename_i hd
+        have hd : s.done = false := by simpa using hd
+        split
+        · exact h0
+        · split
+          · exact ih _ (hpois s h0 hb hd)
+          · exact hsend s h0 hb hd
+
+theorem writerLoop_ind {Q : St → Prop} (s : St) (h0 : Q s)
+    (hexit : ∀ s, Q s → Q { s with writerExited := true })
+    (hpois : ∀ s, Q s → (s.writerExited || s.writerBusy) = false → s.done = false → Q (wlPoison s))
+    (hsend : ∀ s, Q s → (s.writerExited || s.writerBusy) = false → s.done = false → Q (wlSend s)) :
+    Q (writerLoop s) := writerLoopN_ind _ s h0 hexit hpois hsend
+
 /-- the `write` / `arm` branches of `step` below the environment guard -/
 def writeCore (s : St) (w : Who) (last : Bool) (r : IO) : Option St :=
   match findSend s w .write with
@@ -414,15 +483,12 @@ theorem ext_startSend (s : St) (w : Who) (it : Item) : Ext s (startSend s w it) 
   · exact (ext_regSend s w it).trans (ext_senderAddN _ _ _)
 
 theorem ext_writerLoop (s : St) : Ext s (writerLoop s) := by
-  simp only [writerLoop]
-  split
-  · exact Ext.refl s
-  · split
-    · ext_upd
-    · split
-      · exact Ext.refl s
-      · refine Ext.trans ?_ (ext_startSend _ _ _)
-        ext_upd
+  refine writerLoop_ind (Q := fun s' => Ext s s') s (Ext.refl s) ?_ ?_ ?_
+  · intro s' h; refine h.trans ?_; ext_upd
+  · intro s' h _ _
+    exact h.trans ⟨Nat.le_succ _, fun h => h, fun _ h => h, fun _ h => Or.inl h⟩
+  · intro s' h _ _
+    refine h.trans (Ext.trans ?_ (ext_startSend _ _ _)); ext_upd
 
 theorem ext_finishSend (s : St) (w : Who) : Ext s (finishSend s w) := by
   simp only [finishSend]
@@ -502,6 +568,16 @@ theorem ext_readerFails (s : St) :
 theorem ext_step {s s' : St} {a : Act} (hs : step s a = some s') : Ext s s' := by
   cases a with
   | queueBatched c =>
+    simp only [step] at hs
+    split at hs
+    · cases hs
+    · split at hs
+      · cases hs
+      · split at hs
+        · injection hs with hs; subst hs; ext_upd
+        · injection hs with hs; subst hs
+          refine Ext.trans ?_ (ext_writerLoop _); ext_upd
+  | queueBatchedUnsendable c =>
     simp only [step] at hs
     split at hs
     · cases hs
@@ -819,47 +895,81 @@ theorem go_startSend {s : St} {x : List Nat} (w : Who) (it : Item) (h : GO s (it
       h1.srcNone, h1.sentWrote, h1.wroteLe, h1.dlvWrote, h1.wroteOnce, h1.unsFatal⟩
   · exact go_senderAddN _ _ h1
 
+theorem go_wlS1 {s : St} {x : List Nat} (h : GO s x) (hnd : s.done = false) :
+    GO (wlS1 s) (wlLive s ++ x) where
+  cnt c := by
+    have := h.cnt c
+    have := count_take_drop s.offered s.queueSize c
+    have := count_filter_add (s.offered.take s.queueSize) (fun c => s.ctxDone.contains c) c
+    simp only [base, wlS1, wlLive, List.count_append] at *; omega
+  handedNodup := h.handedNodup
+  idsNodup := h.idsNodup
+  idsLe := h.idsLe
+  doneOff hd := by
+    have hd' : s.done = true := hd
+    rw [hd'] at hnd; cases hnd
+  droppedCtx c hc := by
+    rcases List.mem_append.1 hc with hc | hc
+    · exact h.droppedCtx c hc
+    · show c ∈ s.ctxDone
+      simpa using (List.mem_filter.1 hc).2
+  srcNone := h.srcNone
+  sentWrote := h.sentWrote
+  wroteLe := h.wroteLe
+  dlvWrote := h.dlvWrote
+  wroteOnce c := by
+    have := h.wroteOnce c
+    have := count_take_drop s.offered s.queueSize c
+    simp only [written, wlS1] at *; omega
+  unsFatal := h.unsFatal
+
+theorem go_wlPoison {s : St} {x : List Nat} (h : GO s x) (hnd : s.done = false) :
+    GO (wlPoison s) x := by
+  have h1 := go_wlS1 h hnd
+  exact {
+    cnt := fun c => by
+      have := h1.cnt c
+      have := dcount_map (wlLive s) (fun _ => Res.fatal) none c
+      simp only [base, wlPoison, wlS1, dcount_append, List.count_append] at *; omega
+    handedNodup := h1.handedNodup
+    idsNodup := h1.idsNodup
+    idsLe := fun p hp => Nat.le_succ_of_le (h.idsLe p hp)
+    doneOff := h1.doneOff
+    droppedCtx := h1.droppedCtx
+    srcNone := fun d hd hn => by
+      rcases List.mem_append.1 hd with hd | hd
+      · rcases h.srcNone d hd hn with h2 | h2
+        · exact Or.inl h2
+        · exact Or.inr ⟨h2.1, List.mem_append_left _ h2.2⟩
+      · obtain ⟨c, hc, rfl⟩ := List.mem_map.1 hd
+        exact Or.inr ⟨rfl, List.mem_append_right _ hc⟩
+    sentWrote := h1.sentWrote
+    wroteLe := fun p hp => Nat.le_succ_of_le (h.wroteLe p hp)
+    dlvWrote := fun d hd id hid => by
+      rcases List.mem_append.1 hd with hd | hd
+      · exact h.dlvWrote d hd id hid
+      · obtain ⟨c, _, rfl⟩ := List.mem_map.1 hd; cases hid
+    wroteOnce := h1.wroteOnce
+    unsFatal := fun c hc => by
+      rcases List.mem_append.1 hc with hc | hc
+      · exact List.mem_append_left _ (h.unsFatal c hc)
+      · exact List.mem_append_right _ (List.mem_map.2 ⟨c, hc, rfl⟩) }
+
 theorem go_writerLoop {s : St} {x : List Nat} (h : GO s x) : GO (writerLoop s) x := by
-  simp only [writerLoop]
-  split
-  · exact h
-  · split
-    · exact ⟨h.cnt, h.handedNodup, h.idsNodup, h.idsLe, h.doneOff, h.droppedCtx, h.srcNone,
+  refine writerLoop_ind (Q := fun s' => GO s' x) s h ?_ ?_ ?_
+  · intro s' h
+    exact ⟨h.cnt, h.handedNodup, h.idsNodup, h.idsLe, h.doneOff, h.droppedCtx, h.srcNone,
         h.sentWrote, h.wroteLe, h.dlvWrote, h.wroteOnce, h.unsFatal⟩
-    · rename_i hnd
-      split
-      · exact h
-      · refine go_startSend _ _ ?_ ?_
-        · exact {
-            cnt := fun c => by
-              have := h.cnt c
-              have := count_take_drop s.offered s.queueSize c
-              have := count_filter_add (s.offered.take s.queueSize) (fun c => s.ctxDone.contains c) c
-              simp only [base, Item.calls, List.count_append] at *; omega
-            handedNodup := h.handedNodup
-            idsNodup := h.idsNodup
-            idsLe := h.idsLe
-            doneOff := fun hd => by
-              have hd' : s.done = true := hd
-              rw [hd'] at hnd; exact absurd rfl hnd
-            droppedCtx := fun c hc => by
-              rcases List.mem_append.1 hc with hc | hc
-              · exact h.droppedCtx c hc
-              · simpa using (List.mem_filter.1 hc).2
-            srcNone := h.srcNone
-            sentWrote := h.sentWrote
-            wroteLe := h.wroteLe
-            dlvWrote := h.dlvWrote
-            wroteOnce := fun c => by
-              have := h.wroteOnce c
-              have := count_take_drop s.offered s.queueSize c
-              simp only [written] at *; omega
-            unsFatal := h.unsFatal }
-        · intro c
-          have := h.wroteOnce c
-          have := count_take_drop s.offered s.queueSize c
-          have := count_filter_add (s.offered.take s.queueSize) (fun c => s.ctxDone.contains c) c
-          simp only [written, Item.calls] at *; omega
+  · intro s' h _ hnd; exact go_wlPoison h hnd
+  · intro s' h _ hnd
+    have h1 := go_wlS1 h hnd
+    refine go_startSend _ _ ⟨h1.cnt, h1.handedNodup, h1.idsNodup, h1.idsLe, h1.doneOff, h1.droppedCtx,
+      h1.srcNone, h1.sentWrote, h1.wroteLe, h1.dlvWrote, h1.wroteOnce, h1.unsFatal⟩ ?_
+    intro c
+    have := h.wroteOnce c
+    have := count_take_drop s'.offered s'.queueSize c
+    have := count_filter_add (s'.offered.take s'.queueSize) (fun c => s'.ctxDone.contains c) c
+    simp only [written, Item.calls, wlLive, wlS1] at *; omega
 
 theorem go_finishSend {s : St} {x : List Nat} (w : Who) (h : GO s x) : GO (finishSend s w) x := by
   simp only [finishSend]
@@ -980,14 +1090,10 @@ theorem reader_startSend (s : St) (w : Who) (it : Item) : (startSend s w it).rea
   split <;> rfl
 
 theorem reader_writerLoop (s : St) : (writerLoop s).reader = s.reader := by
-  simp only [writerLoop]
-  split
-  · rfl
-  · split
-    · rfl
-    · split
-      · rfl
-      · exact reader_startSend _ _ _
+  refine writerLoop_ind (Q := fun s' => s'.reader = s.reader) s rfl ?_ ?_ ?_
+  · intro s' h; exact h
+  · intro s' h _ _; exact h
+  · intro s' h _ _; rw [wlSend, reader_startSend]; exact h
 
 theorem reader_finishSend (s : St) (w : Who) : (finishSend s w).reader = s.reader := by
   simp only [finishSend]
@@ -1126,6 +1232,50 @@ theorem go_fresh {s : St} {x : List Nat} {c : Nat} (h : GO s x) (hc : c ∉ s.ha
   omega
 
 theorem gr_queueBatched {s s' : St} {c : Nat} (h : GR s) (hs : step s (.queueBatched c) = some s') :
+    GR s' := by
+  simp only [step] at hs
+  split at hs
+  · cases hs
+  · rename_i hc
+    have hc : c ∉ s.handed := by simpa using hc
+    have hfr := go_fresh h.go hc
+    have h1 := go_hand h.go hc
+    split at hs
+    · cases hs
+    · split at hs
+      · injection hs with hs; subst hs
+        refine gr_neutral h ?_ rfl (fun _ hp => hp)
+        refine go_deliver (y := [c]) _ h1 (fun c' => dcount_singleton _ _ _ _) ?_ ?_
+        · intro d hd _; simp only [List.mem_singleton] at hd; subst hd; rfl
+        · intro d hd id hid; simp only [List.mem_singleton] at hd; subst hd; cases hid
+      · rename_i hnd
+        injection hs with hs; subst hs
+        refine gr_neutral h (go_writerLoop ?_) (by rw [reader_writerLoop])
+          (fun p hp => (ext_writerLoop _).wrote p hp)
+        exact {
+          cnt := fun c' => by
+            have := h1.cnt c'
+            simp only [base, List.count_append, List.count_cons, List.count_nil] at *; omega
+          handedNodup := h1.handedNodup
+          idsNodup := h1.idsNodup
+          idsLe := h1.idsLe
+          doneOff := fun hd => by
+            have hd' : s.done = true := hd
+            exact absurd hd' hnd
+          droppedCtx := h1.droppedCtx
+          srcNone := h1.srcNone
+          sentWrote := h1.sentWrote
+          wroteLe := h1.wroteLe
+          dlvWrote := h1.dlvWrote
+          wroteOnce := fun c' => by
+            have := h.go.wroteOnce c'
+            simp only [written, List.count_append, List.count_cons, List.count_nil] at *
+            by_cases e : c = c'
+            · subst e; simp; omega
+            · simp [e]; omega
+          unsFatal := h1.unsFatal }
+
+theorem gr_queueBatchedUnsendable {s s' : St} {c : Nat} (h : GR s) (hs : step s (.queueBatchedUnsendable c) = some s') :
     GR s' := by
   simp only [step] at hs
   split at hs
@@ -1527,6 +1677,7 @@ theorem gr_close {s s' : St} (h : GR s) (hs : step s .close = some s') : GR s' :
 theorem gr_step {s s' : St} {a : Act} (h : GR s) (hs : step s a = some s') : GR s' := by
   cases a with
   | queueBatched c => exact gr_queueBatched h hs
+  | queueBatchedUnsendable c => exact gr_queueBatchedUnsendable h hs
   | queueDirect c => exact gr_queueDirect h hs
   | queueUnsendable c => exact gr_queueUnsendable h hs
   | queueDirectClosing c => exact gr_queueDirectClosing h hs
@@ -2254,22 +2405,32 @@ theorem gd_startSend {s : St} (w : Who) (it : Item) (h : GD s)
 /-! ### §5.3 the other helpers -/
 
 theorem gd_writerLoop {s : St} (h : GD s) : GD (writerLoop s) := by
-  simp only [writerLoop]
-  split
-  · exact h
-  · rename_i hb
-    split
-    · exact gd_repack h
-    · split
-      · exact h
-      · have hnb : s.writerBusy = false := by
-          simp only [Bool.or_eq_true, not_or] at hb; simpa using hb.2
-        refine gd_startSend _ _ ?_ ?_ (fun _ => rfl) (fun c hc => by cases hc)
-        · exact ⟨h.whoNodup, fun _ _ _ => rfl, h.directHanded, h.queued, h.qNodup, h.readerQ,
-            h.excl, h.bound, h.eq, h.fifo, h.armPos, h.i1, h.i2⟩
-        · intro x hx hw
-          have := h.writerSnd x hx hw
-          rw [hnb] at this; cases this
+  refine writerLoop_ind (Q := GD) s h ?_ ?_ ?_
+  · intro s' h; exact gd_repack h
+  · intro s' h _ _
+    exact {
+      whoNodup := h.whoNodup
+      writerSnd := h.writerSnd
+      directHanded := h.directHanded
+      queued := h.queued
+      qNodup := h.qNodup
+      readerQ := h.readerQ
+      excl := h.excl
+      bound := Nat.le_succ_of_le h.bound
+      eq := fun hl => h.eq (live_succ hl s' rfl rfl).1
+      fifo := fun hl => h.fifo (live_succ hl s' rfl rfl).1
+      armPos := fun hl => h.armPos (live_succ hl s' rfl rfl).1
+      i1 := fun hl => h.i1 (live_succ hl s' rfl rfl).1
+      i2 := fun hl => h.i2 (live_succ hl s' rfl rfl).1 }
+  · intro s' h hb _
+    have hnb : s'.writerBusy = false := by
+      rw [Bool.or_eq_false_iff] at hb; exact hb.2
+    refine gd_startSend _ _ ?_ ?_ (fun _ => rfl) (fun c hc => by cases hc)
+    · exact ⟨h.whoNodup, fun _ _ _ => rfl, h.directHanded, h.queued, h.qNodup, h.readerQ,
+        h.excl, h.bound, h.eq, h.fifo, h.armPos, h.i1, h.i2⟩
+    · intro x hx hw
+      have := h.writerSnd x hx hw
+      rw [hnb] at this; cases this
 
 /-- a send is over; the goroutine must not be in the queue, and the deadline must not depend on
 the send -/
@@ -2295,17 +2456,28 @@ theorem mWait_startSend_of_free (s : St) (w : Who) (it : Item)
     exact absurd (show mHeld (regSend s w it) = false from hm) (by rw [hh]; simp)
   · rw [if_neg hh]; rfl
 
-theorem mWait_writerLoop_of_free (s : St) (hm : mHeld (writerLoop s) = false) :
-    (writerLoop s).mWait = s.mWait := by
-  revert hm
-  simp only [writerLoop]
-  split
-  · intro _; rfl
-  · split
-    · intro _; rfl
+theorem mWait_writerLoopN_of_free (n : Nat) (s : St) (hm : mHeld (writerLoopN n s) = false) :
+    (writerLoopN n s).mWait = s.mWait := by
+  induction n generalizing s with
+  | zero => rfl
+  | succ n ih =>
+    rw [writerLoopN_succ] at hm ⊢
+    split
+    · rfl
     · split
-      · intro _; rfl
-      · intro hm; exact mWait_startSend_of_free _ _ _ hm
+      · rfl
+      · split
+        · rfl
+        · split
+          · rename_i h1 h2 h3 h4
+            rw [if_neg h1, if_neg h2, if_neg h3, if_pos h4] at hm
+            exact ih _ hm
+          · rename_i h1 h2 h3 h4
+            rw [if_neg h1, if_neg h2, if_neg h3, if_neg h4] at hm
+            exact mWait_startSend_of_free _ _ _ hm
+
+theorem mWait_writerLoop_of_free (s : St) (hm : mHeld (writerLoop s) = false) :
+    (writerLoop s).mWait = s.mWait := mWait_writerLoopN_of_free _ s hm
 
 theorem gd_releaseWriteM {s : St} (h : GD s) : GD (releaseWriteM s) := by
   simp only [releaseWriteM]
@@ -2790,14 +2962,10 @@ theorem mHeld_startSend_mono (s : St) (w : Who) (it : Item) (h : mHeld s = true)
   exact h1
 
 theorem mHeld_writerLoop_mono (s : St) (h : mHeld s = true) : mHeld (writerLoop s) = true := by
-  simp only [writerLoop]
-  split
-  · exact h
-  · split
-    · exact h
-    · split
-      · exact h
-      · exact mHeld_startSend_mono _ _ _ h
+  refine writerLoop_ind (Q := fun s' => mHeld s' = true) s h ?_ ?_ ?_
+  · intro s' h; exact h
+  · intro s' h _ _; exact h
+  · intro s' h _ _; exact mHeld_startSend_mono _ _ _ h
 
 theorem rest_writerLoop {s : St} (hr : Rest s) : Rest (writerLoop s) := by
   intro hm
@@ -2921,8 +3089,10 @@ theorem gd_enqueueR {s : St} (h : GD s) (hdw : s.reader.dw = 1) (hrq : MW.reader
 /-! ### §5.6 per-action preservation of `GD` and `Rest` -/
 
 /-- `handed` grows, irrelevant fields change -/
-theorem gd_handed {s : St} (h : GD s) (c : Nat) (dl : List Dlv) (dr : List Nat) (off : List Nat) :
-    GD { s with handed := s.handed ++ [c], delivered := dl, dropped := dr, offered := off } :=
+theorem gd_handed {s : St} (h : GD s) (c : Nat) (dl : List Dlv) (dr : List Nat) (off : List Nat)
+    (pz : List Nat := s.poison) :
+    GD { s with handed := s.handed ++ [c], delivered := dl, dropped := dr, offered := off,
+                poison := pz } :=
   ⟨h.whoNodup, h.writerSnd, fun x hx c' hw => List.mem_append_left _ (h.directHanded x hx c' hw),
    h.queued, h.qNodup, h.readerQ, h.excl, h.bound, h.eq, h.fifo, h.armPos, h.i1, h.i2⟩
 
@@ -2938,6 +3108,20 @@ theorem gdr_queueBatched {s s' : St} {c : Nat} (h : GD s) (hr : Rest s)
         exact ⟨gd_handed h c _ _ _, hr⟩
       · injection hs with hs; subst hs
         exact ⟨gd_writerLoop (gd_handed h c _ _ _), rest_writerLoop (s := { s with handed := _, offered := _ }) hr⟩
+
+theorem gdr_queueBatchedUnsendable {s s' : St} {c : Nat} (h : GD s) (hr : Rest s)
+    (hs : step s (.queueBatchedUnsendable c) = some s') : GD s' ∧ Rest s' := by
+  simp only [step] at hs
+  split at hs
+  · cases hs
+  · split at hs
+    · cases hs
+    · split at hs
+      · injection hs with hs; subst hs
+        exact ⟨gd_handed h c _ _ _, hr⟩
+      · injection hs with hs; subst hs
+        exact ⟨gd_writerLoop (gd_handed h c _ _ _ (s.poison ++ [c])),
+          rest_writerLoop (s := { s with handed := _, offered := _, poison := _ }) hr⟩
 
 theorem gdr_queueDirect {s s' : St} {c : Nat} (h : GD s) (hr : Rest s)
     (hs : step s (.queueDirect c) = some s') : GD s' ∧ Rest s' := by
@@ -3288,14 +3472,10 @@ theorem done_startSend (s : St) (w : Who) (it : Item) : (startSend s w it).done 
   rw [startSend_eq']; split <;> rfl
 
 theorem done_writerLoop (s : St) : (writerLoop s).done = s.done := by
-  simp only [writerLoop]
-  split
-  · rfl
-  · split
-    · rfl
-    · split
-      · rfl
-      · exact done_startSend _ _ _
+  refine writerLoop_ind (Q := fun s' => s'.done = s.done) s rfl ?_ ?_ ?_
+  · intro s' h; exact h
+  · intro s' h _ _; exact h
+  · intro s' h _ _; rw [wlSend, done_startSend]; exact h
 
 theorem done_finishSend (s : St) (w : Who) : (finishSend s w).done = s.done := by
   simp only [finishSend]
@@ -3395,15 +3575,11 @@ theorem ds_filterW {s : St} (w : Who) (h : DS s) (hc : Free s w) :
   exact hxo y (List.mem_filter.1 hy).1 hwho
 
 theorem ds_writerLoop {s : St} (h : DS s) : DS (writerLoop s) := by
-  intro hd
-  rw [done_writerLoop] at hd
-  revert hd
-  simp only [writerLoop]
-  split
-  · exact h
-  · split
-    · exact h
-    · rename_i hnd; intro hd; exact absurd hd hnd
+  refine writerLoop_ind (Q := DS) s h ?_ ?_ ?_
+  · intro s' h; exact h
+  · intro s' _ _ hnd; exact ds_of_live hnd
+  · intro s' _ _ hnd
+    exact ds_of_live (by rw [wlSend, done_startSend]; exact hnd)
 
 theorem ds_finishSend {s : St} (w : Who) (h : DS s) (hc : Free s w) : DS (finishSend s w) := by
   have h1 := ds_filterW w h hc
@@ -3537,6 +3713,19 @@ theorem live_of_env {s : St} {r : IO} (henv : ¬ (s.done = true ∧ r = .ok)) (h
 theorem ds_step {s s' : St} {a : Act} (hgd : GD s) (h : DS s) (hs : step s a = some s') : DS s' := by
   cases a with
   | queueBatched c =>
+    simp only [step] at hs
+    split at hs
+    · cases hs
+    · split at hs
+      · cases hs
+      · split at hs
+        · injection hs with hs; subst hs
+          exact ds_sub h (fun hd => hd) rfl (fun _ hp => hp)
+        · rename_i hnd
+          injection hs with hs; subst hs
+          refine ds_of_live ?_
+          rw [done_writerLoop]; simpa using hnd
+  | queueBatchedUnsendable c =>
     simp only [step] at hs
     split at hs
     · cases hs
@@ -3771,6 +3960,16 @@ theorem dr_step {s s' : St} {a : Act} (hg : GR s) (h : DR s) (hs : step s a = so
         · injection hs with hs; subst hs; exact dr_same h rfl rfl
         · injection hs with hs; subst hs
           exact dr_same h (done_writerLoop _) (reader_writerLoop _)
+  | queueBatchedUnsendable c =>
+    simp only [step] at hs
+    split at hs
+    · cases hs
+    · split at hs
+      · cases hs
+      · split at hs
+        · injection hs with hs; subst hs; exact dr_same h rfl rfl
+        · injection hs with hs; subst hs
+          exact dr_same h (done_writerLoop _) (reader_writerLoop _)
   | queueDirect c =>
     simp only [step] at hs
     split at hs
@@ -3893,6 +4092,7 @@ theorem good_step {s s' : St} {a : Act} (h : Good s) (hs : step s a = some s') :
   have : GD s' ∧ Rest s' := by
     cases a with
     | queueBatched c => exact gdr_queueBatched h.gd h.rest hs
+    | queueBatchedUnsendable c => exact gdr_queueBatchedUnsendable h.gd h.rest hs
     | queueDirect c => exact gdr_queueDirect h.gd h.rest hs
     | queueUnsendable c => exact gdr_queueUnsendable h.gd h.rest hs
     | queueDirectClosing c => exact gdr_queueDirectClosing h.gd h.rest hs
